@@ -166,7 +166,7 @@ def run(prop, tier, seed):
     chk.assumptions = TRUSTED + [
         "mailboxes are abstracted to one FIFO per (recipient, sending task); capacity effects are decided by "
         "Bench.tla (C02-C04)",
-        "wall-clock: the Timeout fault uses a 300 ms step timeout against a 1200 ms handler",
+        "wall-clock: the Timeout fault uses a 500 ms step timeout against a 2000 ms handler",
     ]
     if prop == "C11":
         # attribution inside model hierarchies: the Bench layer has the sub-models (hpanic_* benches)
